@@ -1008,6 +1008,10 @@ class Engine:
                 lt = Or(a0.v < b0.v, And(a0.v == b0.v, a1.v < b1.v))
                 eq = And(a0.v == b0.v, a1.v == b1.v)
                 return {"Lt": lt, "LtE": Or(lt, eq), "Gt": Not(Or(lt, eq)), "GtE": Not(lt)}[op]
+            if ka == kb == "bool":
+                # False < True (bool is a subclass of int)
+                ai, bi = z3.If(a.v, I(1), I(0)), z3.If(b.v, I(1), I(0))
+                return {"Lt": ai < bi, "LtE": ai <= bi, "Gt": ai > bi, "GtE": ai >= bi}[op]
             raise Unsupported(f"ordering on {a.ty}, {b.ty}")
         if op in ("In", "NotIn"):
             r = self.contains(st, a, b)
